@@ -19,6 +19,7 @@ import (
 	"github.com/pion/ice/v4"
 	"github.com/pion/logging"
 	"github.com/pion/sdp/v3"
+	"github.com/pion/webrtc/v4/internal/verifhook"
 )
 
 // trackDetails represents any media source that can be represented in a SDP
@@ -1173,14 +1174,17 @@ func rtpExtensionsFromMediaDescription(m *sdp.MediaDescription) (map[string]int,
 // https://tools.ietf.org/html/draft-ietf-rtcweb-jsep-25#section-5.2.2
 func updateSDPOrigin(origin *sdp.Origin, descr *sdp.SessionDescription) {
 	if atomic.CompareAndSwapUint64(&origin.SessionVersion, 0, descr.Origin.SessionVersion) { // store
+		verifhook.Point("sdp.origin.won")
 		atomic.StoreUint64(&origin.SessionID, descr.Origin.SessionID)
 	} else { // load
 		for { // awaiting for saving session id
+			verifhook.Point("sdp.origin.spin")
 			descr.Origin.SessionID = atomic.LoadUint64(&origin.SessionID)
 			if descr.Origin.SessionID != 0 {
 				break
 			}
 		}
+		verifhook.Point("sdp.origin.add")
 		descr.Origin.SessionVersion = atomic.AddUint64(&origin.SessionVersion, 1)
 	}
 }
